@@ -88,6 +88,14 @@ def lib():
         L.dtw_distances_length.argtypes = [P(DTWBlock), idx_t, idx_t]
         L.dtw_block_is_valid.restype = C.c_bool
         L.dtw_block_is_valid.argtypes = [P(DTWBlock), idx_t, idx_t]
+        for name in ("euclidean_distance_squared", "euclidean_distance_euclidean", "euclidean_distance"):
+            f = getattr(L, name)
+            f.restype = seq_t
+            f.argtypes = [P(seq_t), idx_t, P(seq_t), idx_t]
+        for name in ("euclidean_distance_ndim_squared", "euclidean_distance_ndim_euclidean", "euclidean_distance_ndim"):
+            f = getattr(L, name)
+            f.restype = seq_t
+            f.argtypes = [P(seq_t), idx_t, P(seq_t), idx_t, C.c_int]
         for name in ("ub_euclidean", "ub_euclidean_euclidean"):
             f = getattr(L, name)
             f.restype = seq_t
